@@ -93,8 +93,13 @@ def scenarios(rng, geometry, nsched, thorough):
     out = []
 
     def add(sc, n=nsched):
-        for ch in __import__('scenarios').choosers(n, rng):
-            out.append((copy.deepcopy(sc), ch))
+        for i, ch in enumerate(__import__('scenarios').choosers(n, rng)):
+            s2 = copy.deepcopy(sc)
+            # every other schedule: monitor calls interleave at their locks
+            # (the manager process serves each connection in its own thread)
+            if i % 2 == 1 and workers > 1:
+                s2['fine_monitor'] = True
+            out.append((s2, ch))
     add(base, nsched * 2)
     k = copy.deepcopy(base)
     for d in k['downloads']:
